@@ -259,12 +259,16 @@ class BigTtlTriplesYielder(BaseTriplesYielder):
 
     def _process_prefix_line(self, line):
         pieces = line.split(" ")
+        if len(pieces) != 4 or pieces[3] != ".":
+            raise ValueError("Malformed file. A prefix declaration is expected to be alone in its line: " + line)
         prefix = pieces[1] if not pieces[1].endswith(":") else pieces[1][: - 1]
         base_url = remove_corners(pieces[2])
         self._prefixes[prefix] = base_url
 
     def _process_base_line(self, line):
         pieces = line.split(" ")
+        if len(pieces) != 3 or pieces[2] != ".":
+            raise ValueError("Malformed file. A base declaration is expected to be alone in its line: " + line)
         # base_url = pieces[1] if not pieces[1].endswith(":") else pieces[1][: - 1]
         # base_url = remove_corners(pieces[2])
         self._base = remove_corners(pieces[1])
